@@ -5,6 +5,8 @@ package limit
 import (
 	"sync/atomic"
 	"time"
+
+	"github.com/zeromicro/go-zero/core/stores/redis"
 )
 
 // VerifTokenState reads the fallback state of a TokenLimiter (read-only; call at quiescence):
@@ -16,3 +18,7 @@ func VerifTokenState(lim *TokenLimiter, now time.Time) (alive, monitor bool, res
 
 // VerifTokenKeys returns the two store keys of the limiter.
 func VerifTokenKeys(lim *TokenLimiter) (tokens, ts string) { return lim.tokenKey, lim.timestampKey }
+
+// VerifScripts returns the two embedded limiter scripts (read-only): the harness asks the store
+// whether it still has them cached (SCRIPT EXISTS) and re-loads them between histories.
+func VerifScripts() (period, token *redis.Script) { return periodScript, tokenScript }
